@@ -12,7 +12,7 @@
    valid_at s c ty d x : the datasets valid at instant x, in table order. *)
 From Coq Require Import ZArith NArith List Bool Lia.
 From V Require Import Base.Tri Gen.TimespanGen Gen.CalibDiffGen Model.Timespan Proofs.TimespanProofs Model.Calib Proofs.CalibProofs
-  Model.CalibPath Proofs.CalibProofsX1 Proofs.CalibProofsX2.
+  Model.CalibPath Proofs.CalibProofsX1 Proofs.CalibProofsX2 Proofs.CalibProofsX3.
 Import ListNotations.
 Open Scope N_scope.
 
@@ -254,6 +254,17 @@ Print Assumptions xlookup_chain_inline.
 Theorem flatten_no_chain : forall f ch path, (forall c, In c path -> lookup c ch = None) -> flatten (S f) ch path = Some path.
 Proof. exact flatten_plain. Qed.
 Print Assumptions flatten_no_chain.
+
+(* fuel: more fuel never changes a flattening, and a chain table that admits a rank function decreasing from a chain to
+   its children (no cycles -- the registry refuses to create one) always has enough *)
+Theorem flatten_fuel_monotone : forall ch f path r, flatten f ch path = Some r -> flatten (S f) ch path = Some r.
+Proof. exact flatten_mono. Qed.
+Print Assumptions flatten_fuel_monotone.
+
+Theorem flatten_fuel_adequate : forall rk ch, acyclic_by rk ch ->
+  forall f path, (forall c, In c path -> (rk c <= f)%nat) -> exists r, flatten (S f) ch path = Some r.
+Proof. exact flatten_enough. Qed.
+Print Assumptions flatten_fuel_adequate.
 
 (* what one collection contributes: the RUN members (live, right type + data ID, any probe with an instant) and the
    overlapping calibration rows *)
